@@ -1,6 +1,7 @@
 package rules
 
 import (
+	"fmt"
 	"go/token"
 	"go/types"
 	"strings"
@@ -12,7 +13,7 @@ import (
 
 // C40 — epoch timers fire each tick exactly once per epoch, at the right time.
 func init() {
-	register(&Check{ID: "C40", Level: "other", Pkgs: []string{"./pkg/timers", "./pkg/util"}, Run: runC40})
+	register(&Check{ID: "C40", Level: "other", Pkgs: []string{"./pkg/timers", "./pkg/util", "./pkg/innerring", "./cmd/neofs-node"}, Run: runC40})
 }
 
 func runC40(p *core.Prog, r *core.Report) {
@@ -275,4 +276,84 @@ func runC40(p *core.Prog, r *core.Report) {
 		}
 	}
 
+	// ---- R7 what is registered as a tick is the handler, not a filter in front of it
+	r7 := r.Rule("C40.R7", "every function registered with the epoch timers (NewEpochTicks / SubEpochTick.Tick) is a SingleAsyncExecutingInstance wrapper, a handler of its own, or a closure that calls the wrapped tick on every path: no state kept between ticks decides whether the wrapped handler runs (the timers alone decide that, R1-R3)", 3)
+	registeredTicksAreUnfiltered(p, r, r7)
+	r.Explain += " (R7) the wiring: every value stored as a timers.Tick (in the inner ring's initTimers and the storage node's load-report timers) is result #0 of SingleAsyncExecutingInstance, a plain handler, or a closure in which each call of a captured function post-dominates the entry; a closure that consults its own flag before passing the tick on can swallow the single tick of an epoch after a Reset."
+
+}
+
+func registeredTicksAreUnfiltered(p *core.Prog, r *core.Report, h *core.RuleH) {
+	isTick := func(t types.Type) bool {
+		n, ok := t.(*types.Named)
+		return ok && n.Obj().Name() == "Tick" && n.Obj().Pkg() != nil && strings.HasSuffix(n.Obj().Pkg().Path(), "pkg/timers")
+	}
+	n := 0
+	for _, fn := range p.Funcs() {
+		if fn.Blocks == nil || core.FuncPkg(fn) == nil || strings.HasSuffix(core.FuncPkg(fn).Path(), "pkg/timers") {
+			continue // the timers package only copies what it was given
+		}
+		for _, b := range fn.Blocks {
+			for _, in := range b.Instrs {
+				st, ok := in.(*ssa.Store)
+				if !ok || !isTick(st.Val.Type()) {
+					continue
+				}
+				v := st.Val
+				for {
+					if ct, isCT := v.(*ssa.ChangeType); isCT {
+						v = ct.X
+						continue
+					}
+					break
+				}
+				if c, isC := v.(*ssa.Const); isC && c.IsNil() {
+					continue
+				}
+				n++
+				key := core.FuncName(core.Outer(fn)) + "#tick@" + fmt.Sprint(n)
+				switch x := v.(type) {
+				case *ssa.Extract:
+					c, isCall := x.Tuple.(*ssa.Call)
+					h.Check(isCall && x.Index == 0 && strings.HasSuffix(core.CalleeName(c), "util.SingleAsyncExecutingInstance"), key, p.InstrPos(in),
+						"the tick is a SingleAsyncExecutingInstance wrapper", "the registered tick is a result of something else than SingleAsyncExecutingInstance")
+				case *ssa.MakeClosure:
+					cl := x.Fn.(*ssa.Function)
+					bad := ""
+					for _, cb := range cl.Blocks {
+						for _, ci := range cb.Instrs {
+							call, isCall := ci.(*ssa.Call)
+							if !isCall {
+								continue
+							}
+							u, isU := call.Call.Value.(*ssa.UnOp)
+							if !isU {
+								continue
+							}
+							if _, isFV := u.X.(*ssa.FreeVar); !isFV {
+								continue
+							}
+							if _, isSig := call.Call.Value.Type().Underlying().(*types.Signature); !isSig {
+								continue
+							}
+							first := cl.Blocks[0].Instrs[0]
+							same := func(i2 ssa.Instruction) bool { return i2 == ssa.Instruction(call) }
+							if !(same(first) || core.MustFollow(first, same)) {
+								bad = p.InstrPos(call)
+							}
+						}
+					}
+					h.Check(bad == "", key, p.InstrPos(in), "the closure passes the tick on unconditionally (or is the handler itself)",
+						"the registered tick is a closure that calls the wrapped handler only on some paths ("+bad+"): state kept between ticks decides whether an epoch's tick reaches the handler, so after a Reset that arrives before the local end of the epoch the handler can be skipped for a whole epoch")
+				case *ssa.Function:
+					h.Check(true, key, p.InstrPos(in), "a plain handler", "")
+				default:
+					h.Check(false, key, p.InstrPos(in), "", "cannot tell what is registered as a tick ("+v.String()+")")
+				}
+			}
+		}
+	}
+	if n == 0 {
+		r.Fatalf("C40.R7: no registration of a timers.Tick found")
+	}
 }
